@@ -875,6 +875,10 @@ func (g *gen) parseKeyCase() *Case {
 		raw = append([]byte(`{`), g.r.Bytes([]int{15, 23, 31}[g.r.Intn(3)])...)
 		c.Path = "brace-but-key-sized"
 	}
+	if c.Prim && (c.Path == "raw-bytes" || c.Path == "brace-but-key-sized") && len(bytes.TrimRight(raw, "\n=")) == 0 {
+		// only newline / padding characters: base64-decodes to the empty key, which jwx refuses
+		c.Prim, c.Path = false, "raw-bytes-only-padding-chars"
+	}
 	g.layout(c, []req{{name: "raw", data: raw, nilable: true, spare: -1}})
 	return c
 }
